@@ -178,6 +178,8 @@ def gen(stratum, rng, tier):
         n = rng.randint(1, 9)
         r, c = rng.choice([(1, n), (n, 1), (1, 1), (2, n), (n, 2)])
         M = _mat(rng, r, c, _pool(rng, rng.choice(["int", "dyadic", "neg", "01"])))
+        if rng.random() < 0.04:
+            M = [[] for _ in range(rng.randint(0, 4))]  # rows without a single column: nothing can be assigned
     elif stratum == "decimal":
         r, c = _dims(rng, rng.choice(["square", "wide", "tall"]), hi)
         M = _mat(rng, r, c, _pool(rng, "decimal"))
@@ -203,7 +205,7 @@ def gen(stratum, rng, tier):
 
 def _judge(obs, M, minimize, res, exact, opt):
     tag = "min" if minimize else "max"
-    r, c = len(M), len(M[0])
+    r, c = len(M), (len(M[0]) if M else 0)
     a = res.solution
     obs.event("hung.shape")
     if not isinstance(a, (list, tuple)) or len(a) != r or any((not isinstance(x, int)) or isinstance(x, bool) for x in a):
@@ -260,7 +262,7 @@ def _run_one(obs, M, exact, as_tuple=False):
     order = (True, False) if (len(M) + len(M[0]) if M and M[0] else 0) % 2 == 0 else (False, True)
     for minimize in order:
         try:
-            opt, how = oa.optimum(M, minimize)
+            opt, how = (Fraction(0), "no-columns") if not (M and M[0]) else oa.optimum(M, minimize)
         except AssertionError as e:
             obs.inconc(str(e))
             return
